@@ -15,13 +15,15 @@ EXPLANATION = (
     "_change_container_size re-writes at DATA_OFFSET+new_size exactly the 4+n*LEASE_SIZE bytes it read at the "
     "old extra-lease offset (read before the old area is zeroed, zeroing before the write-back) and then "
     "records the new offset; (3) _read_share_data clips the length to max(0, data_length-offset), returns "
-    "b'' only for length 0 and reads at DATA_OFFSET+offset; readv passes (offset, length) in order; (4) writev "
+    "b'' only for length 0 and reads at DATA_OFFSET+offset; readv passes (offset, length) in order and returns the "
+    "collected reads; assertions over the fit/clip forms are exactly the non-strict ones (an exact fit is legal); (4) writev "
     "applies every (offset, data) pair and truncates only by writing the length field under "
     "new_length < current length, read after the data writes; (5) _evaluate_write_vectors unlinks (never "
     "writev) under new_length == 0 and calls writev(datav, new_length) on an existing or freshly allocated "
     "share otherwise; (6) the file writes reachable from writev are exactly the six classified sites, no "
     "lease-record writer is reachable, and the readers/writers of the length and extra-lease-offset fields "
-    "agree with each other and with the header packed by mutable_schema._header; (7) test vectors are compared "
+    "agree with each other and with the header packed by mutable_schema._header, whose initial layout is fixed header + "
+    "four blank lease slots + extra-lease count 0 with the extra-lease offset equal to DATA_OFFSET; (7) test vectors are compared "
     "(==) against _read_share_data of the share, and against b'' for a missing share; any failing vector makes "
     "the verdict False.  Undecided: byte-level results of seek/read/write, integer arithmetic, crash windows "
     "between the writes.")
@@ -68,6 +70,53 @@ def lin_fact(fnm, n, lab, allow_assume=False):
     if op in (ast.Eq, ast.NotEq):
         return (_SYM[op], min(str(d), str(-d)))
     return (_SYM[op], str(d))
+
+
+def assume_fact(fnm, n):
+    """(op, poly) holding when the assert / precondition at test node n passes.  A local all of whose reaching
+    definitions are the same call (e.g. extra_lease_offset re-read after the container grew) is spelt as that call."""
+    if n.kind != "test" or not n.assume:
+        return None
+    env = fnm.env_at(n)
+    ren = {}
+    for name, ds in fnm.rd.get(n.id, {}).items():
+        if name in env.defs or len(ds) < 2 or any(d < 0 for d in ds):
+            continue
+        vals = {norm_plain(v) if v is not None else None for v in (fnm._def_value(fnm.cfg.nodes[d], name) for d in ds)}
+        if len(vals) == 1 and None not in vals:
+            ren[name] = vals.pop()
+    nz = Normaliser(Env(None, extra=env.defs, rename=ren, depth=fnm.depth))
+    e = n.ast
+    pol = True
+    while isinstance(e, ast.UnaryOp) and isinstance(e.op, ast.Not):
+        e, pol = e.operand, not pol
+    if not isinstance(e, ast.Compare) or len(e.ops) != 1 or type(e.ops[0]) not in _NEGOP:
+        return None
+    op = type(e.ops[0])
+    if not pol:
+        op = _NEGOP[op]
+    l, r_ = e.left, e.comparators[0]
+    if op in (ast.Gt, ast.GtE):
+        op = {ast.Gt: ast.Lt, ast.GtE: ast.LtE}[op]
+        l, r_ = r_, l
+    try:
+        d = nz.poly(r_) - nz.poly(l)
+    except Exception:
+        return None
+    if op in (ast.Eq, ast.NotEq):
+        return (_SYM[op], min(str(d), str(-d)))
+    return (_SYM[op], str(d))
+
+
+def check_assumes(r, fn, cfg, fnm, expr, what):
+    """An assert/precondition over the linear form `expr` (or its negation) must be exactly ``0 <= expr``:
+    anything else rejects inputs the byte-array behaviour has to accept (e.g. an exact fit)."""
+    want = P(expr)
+    neg = P("-(%s)" % expr)
+    for n in cfg.nodes:
+        f_ = assume_fact(fnm, n)
+        if f_ and f_[1] in (want, neg):
+            r.require(f_ == ("<=", want), fn, fn.loc(n.ast), "%s: the assertion %s rejects %s" % (short(fn), src(fn, n.ast), what))
 
 
 def le_facts(expr: str):
@@ -346,6 +395,7 @@ def run(ctx: Context):
             r.violation(fn, fn.loc(n.ast), "data-region write without growing the container first: the write can land "
                         "on the extra-lease block (path: %s)" % w.brief(), w)
         r.count(len(cfg.nodes))
+        check_assumes(r, fn, cfg, fnm, "%s - self.DATA_OFFSET - (%s)" % (ELO, END), "a write that exactly fills the container")
 
         cs = idx.func(MSF + "._change_container_size")
         f2, ncs = first_positional_params(cs)[:2]
@@ -411,7 +461,7 @@ def run(ctx: Context):
 
     # -- 3. clipped reads -------------------------------------------------------
     with ctx.rule("C23.3", "R1", "_read_share_data clips to max(0, data_length - offset), returns b'' only for length 0, "
-                  "reads at DATA_OFFSET + offset; readv passes (offset, length)", expected=3) as r:
+                  "reads at DATA_OFFSET + offset; readv passes (offset, length)", expected=4) as r:
         fn = idx.func(MSF + "._read_share_data")
         f, off, ln = first_positional_params(fn)[:3]
         cfg = fn.cfg()
@@ -450,8 +500,15 @@ def run(ctx: Context):
                     r.violation(fn, fn.loc(n.ast), "returns b'' without having established length == 0 (path: %s)" % w.brief(), w)
                 continue
             r.violation(fn, fn.loc(n.ast), "returns %s, not the bytes read from the share" % src(fn, n.ast.value))
+        check_assumes(r, fn, cfg, fnm, "%s - %s - %s" % (DL, off, ln), "a read that ends exactly at the end of the data")
         rv = idx.func(MSF + ".readv")
         _pairs_loop(r, rv, first_positional_params(rv)[0], "_read_share_data", "read vector")
+        # readv returns the list to which every clipped read was appended
+        rets = [n for n in func_own_nodes(rv) if isinstance(n, ast.Return)]
+        acc = attr_path(rets[0].value) if len(rets) == 1 and rets[0].value is not None else None
+        apps = [c for c in calls_in_func(rv, "append") if isinstance(c.func, ast.Attribute) and attr_path(c.func.value) == acc
+                and len(c.args) == 1 and isinstance(c.args[0], ast.Call) and call_name(c.args[0]) == "self._read_share_data"]
+        r.require(acc is not None and len(apps) == 1, rv, rv.loc(), "readv does not return the list of the data it read")
 
     # -- 4. writev --------------------------------------------------------------
     with ctx.rule("C23.4", "R1/R3", "writev applies every (offset, data) pair, then truncates only through the length "
@@ -618,7 +675,7 @@ def run(ctx: Context):
     # -- 6. lease isolation: the write-site table --------------------------------
     with ctx.rule("C23.6", "R4/R5", "file writes reachable from MutableShareFile.writev are the six classified sites; "
                   "no lease-record writer is reachable; length / extra-lease-offset field accessors agree with each "
-                  "other and with the packed header", expected=10) as r:
+                  "other and with the packed header", expected=13) as r:
         root = idx.func(MSF + ".writev")
         reach = cg.reachable([root])
         table = {"_write_share_data": 2, "_change_container_size": 2, "_write_data_length": 1, "_write_extra_lease_offset": 1}
@@ -736,6 +793,27 @@ def run(ctx: Context):
         r.require(init_elo == consts["DATA_OFFSET"], "allmydata.storage.mutable_schema:_EXTRA_LEASE_OFFSET",
                   "%s:%d" % (ms.relpath, e[-1].lineno),
                   "a fresh container's extra-lease offset is %r but data starts at DATA_OFFSET=%d" % (init_elo, consts["DATA_OFFSET"]))
+        # the complete initial header: fixed part, four blank lease slots, extra-lease count 0
+        hret = [n for n in func_own_nodes(hd) if isinstance(n, ast.Return)]
+        hdefs = unique_defs(hd)
+        parts = None
+        if len(hret) == 1 and isinstance(hret[0].value, ast.Call) and call_tail(hret[0].value) == "join" \
+                and len(hret[0].value.args) == 1 and isinstance(hret[0].value.args[0], (ast.List, ast.Tuple)):
+            parts = [hdefs.get(e.id) if isinstance(e, ast.Name) else e for e in hret[0].value.args[0].elts]
+        if not parts or len(parts) != 3 or any(p_ is None for p_ in parts):
+            raise AnalysisError("mutable_schema._header: shape of the returned header not recognised")
+        r.site(hd, hret[0], "initial header layout")
+        r.require(parts[0] is pc, hd, hd.loc(hret[0]), "the header does not start with the packed fixed header")
+        try:
+            blank = fo.fold(sub.visit(copy.deepcopy(parts[1])), ms)
+        except NotConstant:
+            blank = None
+        r.require(isinstance(blank, bytes) and len(blank) == 4 * consts["LEASE_SIZE"] and not blank.strip(b"\x00"), hd, hd.loc(hret[0]),
+                  "a fresh container does not have exactly four blank lease slots (%s bytes) after the fixed header" % (
+                      len(blank) if isinstance(blank, bytes) else "?"))
+        cnt = struct_call(parts[2], "pack")
+        r.require(cnt is not None and _fold(fo, cnt[0], hd) == ">L" and len(cnt[1]) == 1 and _fold(fo, cnt[1][0], hd) == 0,
+                  hd, hd.loc(hret[0]), "a fresh container's extra-lease count is not struct.pack('>L', 0)")
         sh = idx.func("storage.mutable_schema:_Schema.header")
         hc = calls_in_func(sh, "_header")
         r.require(len(hc) == 1 and len(hc[0].args) >= 2 and isinstance(hc[0].args[1], ast.Name)
